@@ -79,7 +79,7 @@ class C11(Check):
     def history(self, name, idx, fault, follow, k):
         """returns (world, [(reply, exc)], [log slices])"""
         v1 = name.startswith("v1-")
-        dev = PowHsm(seed=b"c11")
+        dev = dialogues.configure(PowHsm(seed=b"c11"), name)
         w = World(dev)
         proto = harness.make_protocol(w, v1=v1)
         base = len(w.log)
